@@ -119,12 +119,15 @@ class Gen:
             "terminate_cg_by_size": [None, True],
             "default_preconditioner": [None, None, True],
             "num_contour_quadrature": [15, 15, 7],
+            "cholesky_jitter_double": [1e-8, 1e-8, 1e-4, 1e-2],
+            "cholesky_jitter_float": [1e-6, 1e-6, 1e-3, 1e-2],
         }.get(name)
 
     FLIPPABLE = ["max_cholesky_size", "max_root_decomposition_size", "max_cg_iterations", "max_lanczos_quadrature_iterations", "num_trace_samples",
                  "max_preconditioner_size", "min_preconditioning_size", "cg_tolerance", "tridiagonal_jitter", "cholesky_max_tries",
                  "preconditioner_tolerance", "fast_root", "fast_log_prob", "fast_solves", "memory_efficient", "ciq_samples", "debug",
-                 "deterministic_probes", "terminate_cg_by_size", "default_preconditioner", "num_contour_quadrature"]
+                 "deterministic_probes", "terminate_cg_by_size", "default_preconditioner", "num_contour_quadrature", "cholesky_jitter_double",
+                 "cholesky_jitter_float"]
 
     def initial_settings(self):
         rng = self.rng
@@ -558,7 +561,7 @@ class Gen:
                 kind = rng.choice([k for k in self.fault_kinds if k != "cb"] or ["crash"])
             f = {"kind": kind, "u": round(rng.random(), 4)}
             if kind == "chol_info":
-                f["attempts"] = rng.choice([1, 1, 2, 4])
+                f["attempts"] = rng.choice([1, 1, 2, 4, 8, 8])  # 8 >= max_tries + 1: every retry fails, NotPSDError reaches the caller
             if kind == "linalg_err":
                 f["fn"] = rng.choice(["eigh", "eigh", "svd", "qr", "eigvalsh"])
             if kind == "crash":
